@@ -153,7 +153,12 @@ def compile_items(arts, items, tag, emit="metadata", nshards=64, jobs=16, extra_
 
 
 def setup():
-    pass
+    """build the expansion scanner (C18) and the macro carrier"""
+    p = subprocess.run(["cargo", "build", "--offline", "--release"], cwd=os.path.join(B.ENGINE, "expscan"), env=B.env(), capture_output=True, text=True)
+    if p.returncode != 0:
+        raise B.MachineryError("expscan does not build: " + p.stderr[-2000:])
+    carrier()
+    print("setup: expscan and the macro carrier built")
 
 
 def replay(rp):
